@@ -619,9 +619,13 @@ fn dispatch_serde(ty: &str, operands: &[Vec<&str>]) -> Vec<String> {
 fn cji(j: usize, i: usize) -> f64 {
     (1 + (3 * j + 5 * i) % 7) as f64
 }
-/// f_j(x) = e_j + sum_i (x_i * x_i * x_{(i+1) mod n}) * c(j,i) + x_{j mod n} * d_j
+/// f_j(x) = e_j + sum_i (x_i * x_i * x_{(i+1) mod n}) * c(j,i) + x_{j mod n} * d_j; f_j = e_j (a constant) for odd j >= 3
 fn poly<D: DualNum<f64>>(x: &[D], j: usize) -> D {
     let n = x.len();
+    // the odd outputs from the fourth on are constants: they carry no derivative information at all (eps absent in the vector types)
+    if j >= 3 && j % 2 == 1 {
+        return D::from(0.5 * j as f64);
+    }
     let mut acc = D::from(0.5 * j as f64);
     for i in 0..n {
         acc = acc + (x[i].clone() * &x[i] * &x[(i + 1) % n]) * cji(j, i);
